@@ -31,6 +31,7 @@ BOUNDS = {"quick": {"unmerged_depth": 3}, "thorough": {"unmerged_depth": 4}}
 
 CONFIGS = {
     "default": {},
+    "deprecated36": {"extra": [(36, 1, b"\x00\x03"), (35, 1, b"\x00\x02")]},
     "encoders": {
         "get": [("_HEADER", b"Accept: */*"), ("_PARAMETER", b"k=v"), ("BUILD", 0), ("MASK", None), ("NETBIOS", None), ("PREPEND", b"SESSION="), ("HEADER", b"Cookie")],
         "post": [("BUILD", 0), ("BASE64URL", None), ("PARAMETER", b"id"), ("BUILD", 1), ("MASK", None), ("BASE64", None), ("APPEND", b"--"), ("PRINT", None)],
@@ -46,7 +47,7 @@ CONFIGS = {
 EVENTS = (
     "raw_settings", "raw_settings_by_index", "settings", "settings_by_index", "derived", "settings_map",
     "c2http_aesrand", "c2http_rsa", "c2http_aeshmac", "client_dryrun", "profile", "transform_get", "transform_post",
-    "response_roundtrip", "iter_recover_http", "mutate", "version",
+    "response_roundtrip", "iter_recover_http", "mutate", "version", "transform_norequest",
 )
 
 
@@ -76,7 +77,8 @@ def plain(x):
 def snapshot(cfg):
     return plain(
         {
-            "tuple": [(s.index.value, s.type.value, s.length, bytes(s.value)) for s in cfg.settings_tuple],
+            "tuple": [(s.index.value, repr(s.index), s.type.value, s.length, bytes(s.value)) for s in cfg.settings_tuple],
+            "enum_keys": [repr(k) for k in cfg.settings_map("enum")],
             "block": cfg.config_block,
             "views": [dict(cfg.settings_map("name")), dict(cfg.settings_map("const")), dict(cfg.settings_map("name", pretty=True)), dict(cfg.settings_map("const", pretty=True))],
             "cached": None,
@@ -159,6 +161,19 @@ def do_event(cfg, ev, seed):
                 req = h.transform_get.transform(c2.C2Data(metadata=blob), request=c2.HttpRequest(method=h.get_verb, uri=h.get_uris[0], params={}, headers={}, body=b""))
                 out = list(h.iter_recover_http(req))
                 return plain([[(type(p).__name__, getattr(p, "bid", None), bytes(getattr(p, "info", b""))) for p in out], sorted(k.hex()[:16] for k in h.metadata_cache)])
+            finally:
+                random.getrandbits = real
+        if ev == "transform_norequest":
+            h = c2.C2Http(cfg, aes_rand=aes_rand)
+            real = random.getrandbits
+            random.getrandbits = lambda k: 0x41424344
+            try:
+                r1 = h.transform_get.transform(c2.C2Data(metadata=b"M" * 8))
+                snap1 = plain([r1.uri, r1.params, r1.headers, r1.body])
+                r2 = h.transform_submit.transform(c2.ClientC2Data(id=b"77", output=b"O" * 8))
+                snap2 = plain([r2.uri, r2.params, r2.headers, r2.body])
+                r3 = h.transform_response.transform(c2.C2Data(output=b"T" * 16))
+                return [snap1, snap2, plain([r3.uri, r3.params, r3.headers, r3.body]), plain([r1.uri, r1.params, r1.headers, r1.body]) == snap1]
             finally:
                 random.getrandbits = real
         if ev == "mutate":
